@@ -48,6 +48,14 @@ def step (routes : St) (fields : List String) (impl : String) : St × Drv.Reply 
     match ms.mapM parseMatcher with
     | some l => (routes ++ [l.map register], .det "ok" impl true true)
     | none => (routes, .bad)
+  | ["conc", g, k] =>
+    -- G goroutines route K packets each through four routes that accept exactly one kind each: every packet is handled
+    -- by its own route (the first-match rule does not depend on what other goroutines are routing), nothing is answered
+    match g.toNat?, k.toNat? with
+    | some g, some k =>
+      let want := "handled=" ++ toString (g * k) ++ " misrouted=0 replies=0"
+      (routes, ⟨want, want == impl, true, want == impl, "-"⟩)
+    | _, _ => (routes, .bad)
   | ["pkt", k, t, ns, id, fr, to] =>
     match parseKind k, decStr t, (if ns == "~" then some none else (decStr ns).map some), decStr id, decStr fr, decStr to with
     | some kind, some t, some ns, some id, some fr, some to =>
